@@ -412,3 +412,51 @@ class Tracker:
         for d in live:
             if d != acc:
                 self.reject.add((bid, d))
+
+
+def backward(body, local, through_calls=True, extra=()):
+    """Locals that `local` may have been computed from, going backwards through assignments and
+    transparent (identity-like) calls."""
+    prep(body)
+    seen = {local}
+    todo = [local]
+    defs = {}
+    for b in body.blocks:
+        if b["cleanup"]:
+            continue
+        for s in b["stmts"]:
+            defs.setdefault(s["d"][0], []).append(("s", s["rv"]))
+        t = b["term"]
+        if t["k"] == "call" and len(t["d"]) >= 1:
+            defs.setdefault(t["d"][0], []).append(("c", t))
+    while todo:
+        x = todo.pop()
+        for k, d in defs.get(x, ()):
+            srcs = []
+            if k == "s":
+                srcs = [op_local(o) for o in rv_operands(d)]
+            elif through_calls and (_suffix_match(d.get("ncallee"), TRANSPARENT) or callee_matches(d, extra)):
+                srcs = [op_local(a) for a in d["args"]]
+            for s in srcs:
+                if s is not None and s not in seen:
+                    seen.add(s)
+                    todo.append(s)
+    return seen
+
+
+def field_reads(body, field, roots=None):
+    """[(dest local, root local, place)] for statements reading a place that projects `.field`."""
+    out = []
+    for b in body.blocks:
+        if b["cleanup"]:
+            continue
+        for s in b["stmts"]:
+            rv = s["rv"]
+            p = None
+            if rv["k"] == "use" and rv["a"][0] in ("cp", "mv"):
+                p = rv["a"][1]
+            elif rv["k"] == "ref":
+                p = rv["p"]
+            if p and ("." + field) in p[1:] and len(s["d"]) == 1 and (roots is None or p[0] in roots):
+                out.append((s["d"][0], p[0], p))
+    return out
